@@ -56,7 +56,10 @@ def append_probes(chk, sd, binp):
                     rid += 1
                     steps.append({"a": "req", "id": rid, "client": cl, "plan": "ok"})
                 if rnd == 0:
-                    steps.append({"a": "admin", "op": "add", "name": "b4", "addr": "http://b4.backend.test:80", "w": 1})
+                    # the appended backend's NAME is arbitrary: also one that sorts before every configured name and
+                    # one that sorts between two of them (b1 < b10 < b2)
+                    nm = ("b4", "a0", "b10")[j % 3]
+                    steps.append({"a": "admin", "op": "add", "name": nm, "addr": "http://%s.backend.test:80" % nm, "w": 1})
             scripts.append({"id": "probe-%d-%d" % (i, j), "cfg": ini["cf"], "steps": steps})
     tp = pc.replay(binp, scripts, sd, "probe")
     chk.cov["traces_validated_against_impl"] += len(scripts)
